@@ -264,7 +264,7 @@ class Cons:
 
 def _show(v):
     if isinstance(v, int) and not isinstance(v, bool):
-        return repr(chr(v))
+        return repr(chr(v)) if 0 <= v < 0x110000 else str(v)
     return str(v)
 
 
